@@ -17,7 +17,6 @@ package receive
 import (
 	"context"
 	"fmt"
-	"os"
 	"runtime"
 	"strings"
 	"testing"
@@ -86,8 +85,8 @@ type c24Req struct {
 	// releasing: the check has started to let this request's writes answer
 	releasing bool
 	parked    []*vfDest
-	done    <-chan struct{}
-	res     *vfResult
+	done      <-chan struct{}
+	res       *vfResult
 }
 
 type c24Run struct {
@@ -116,12 +115,7 @@ func c24NewRun(tb testing.TB, n, rf, nodes int, algo HashringAlgorithm) *c24Run 
 	return &c24Run{tb: tb, hz: hz, n: n, rf: rf, gate: g}
 }
 
-func (r *c24Run) logf(format string, a ...any) {
-	r.log = append(r.log, fmt.Sprintf(format, a...))
-	if os.Getenv("VERIF_C24_DEBUG") != "" {
-		fmt.Printf("C24DBG %p held=%d %s\n", r, r.held, fmt.Sprintf(format, a...))
-	}
-}
+func (r *c24Run) logf(format string, a ...any) { r.log = append(r.log, fmt.Sprintf(format, a...)) }
 
 func (r *c24Run) inside() []int {
 	var in []int
